@@ -7,7 +7,8 @@ from ..fold import Folder, Record, EnumMember, Ref, is_unknown, single_return_ex
 from ..absint import Interp, Hooks, State, K, Sym, Obj, Exc, NONE, ListVal
 from ..report import Check
 from .. import util
-from .common import ForkHooks, labels_of, check_references_complete, expect_enum_value_agreement
+from .common import ForkHooks, labels_of, check_references_complete, expect_enum_value_agreement, \
+    check_first_error_wins
 
 PR = 'exactly_lib.tcfs.path_relativity'
 RRT = 'exactly_lib.tcfs.relativity_root'
@@ -373,7 +374,29 @@ def clause_c(c: Check):
                 ok = a.endswith('options.accepted_relativity_variants') and ('rel_opt_conf' in a)
                 c.expect(ok, 'C12-c', 'restriction-plumbing/%s' % (f2.key.split(':')[-1] if f2 else '?'),
                          'a path-or-string symbol reference is restricted by %s' % a, '%s:%d' % (pm.relpath, n.lineno))
-    c.floor('C12-c', 'symbol-reference restriction sites of path arguments', sites, 3)
+    c.floor('C12-c', 'symbol-reference restriction sites of path arguments', sites, 2)
+    # a path that is a reference to a path-or-string symbol: when the symbol is a string, the root is the DEFAULT
+    # relativity of the argument that is being parsed - at every place such a path is built
+    ref = ix.func('exactly_lib.type_val_deps.types.path.path_sdvs:reference')
+    n_ref = 0
+    for s in util.call_sites_of(ix, ref):
+        n_ref += 1
+        b = util.bound_call_args(ref, s.node, skip_first=False) or {}
+        a = b.get('default_relativity')
+        a = util.resolve_temp(s.func, a) if a is not None else None
+        ok = isinstance(a, ast.Attribute) and a.attr == 'default_option' and isinstance(a.value, ast.Attribute) \
+            and a.value.attr == 'options'
+        c.expect(ok, 'C12-c', 'default-relativity-plumbing/path_sdvs.reference@' + s.where,
+                 'a path made from a path-or-string symbol gets the default relativity %s, not the default option of '
+                 'the argument being parsed' % ('`%s`' % unparse(a) if a is not None else
+                                               'that the function falls back to when none is given'), s.loc)
+    c.floor('C12-c', 'paths built from path-or-string symbol references', n_ref, 2)
+    sdv_cls = ix.cls('exactly_lib.type_val_deps.types.path.path_sdv_impls.path_from_symbol_reference:'
+                     'SdvThatIsIdenticalToReferencedPathOrWithStringValueAsSuffix')
+    for s in util.call_sites_of(ix, sdv_cls):
+        c.expect(s.where == ref.key, 'C12-c', 'default-relativity-plumbing/who-may-construct@' + s.where,
+                 'a path from a path-or-string symbol is constructed in %s, by-passing path_sdvs.reference' % s.where,
+                 s.loc)
     # restriction builders pass the variants on
     for fn, inner in ((PREL + ':reference_restrictions_for_path_symbol', 'PathAndRelativityRestriction'),
                       ('exactly_lib.type_val_deps.types.path.references:path_relativity_restriction',
@@ -395,6 +418,17 @@ def clause_c(c: Check):
              and parts.get('STRING') == 'PATH_COMPONENT_STRING_REFERENCES_RESTRICTION' and len(parts) == 2, 'C12-c',
              'path_or_string_reference_restrictions/parts',
              'parts are %s' % parts, por.loc())
+    # the transitive part of a restriction (a string used as a path component is not made from path symbols, however
+    # many definitions it is routed through): every reference of every definition is examined - itself and what it
+    # refers to in turn - and the first failure is the result
+    ci = ix.func('exactly_lib.type_val_deps.sym_ref.w_str_rend_restrictions.reference_restrictions:'
+                 'ReferenceRestrictionsOnDirectAndIndirect._check_indirect')
+    check_first_error_wins(
+        c, 'C12-c', ci,
+        lambda d, n, cv: isinstance(n.func, ast.Attribute) and (
+            (n.func.attr == 'is_satisfied_by' and isinstance(n.func.value, ast.Attribute) and n.func.value.attr == '_indirect')
+            or d == ci),
+        per_element=2)
     # the restriction itself: decision table over (absolute?, relativity in accepted?)
     isb = ix.func('exactly_lib.tcfs.relativity_validation:is_satisfied_by')
     spr = ix.cls(PR + ':SpecificPathRelativity')
